@@ -49,7 +49,7 @@ class Caught(object):
 
 
 class VErr(Exception):
-    __bool__ = lambda self: False       # unusual but legal: a falsy exception object
+    __bool__ = lambda self: getattr(self, "vid", 0) % 2 == 0       # unusual but legal: about half of the exception objects are falsy
 
     def __init__(self, vid):
         Exception.__init__(self, "verr-%d" % vid)
